@@ -3,7 +3,9 @@ import GV.Model.SyncLoop
 import GV.Gen.Limits
 /-
   feed_impl: `op \t implementation-output`.
-  op:  sync <ntc|ntn> <limit> <lazy> <slow> <stopAt|-> <events>     (see harness/c21.go)
+  op:  sync <ntc|ntn|ntcp> <limit> <lazy> <slow> <stopAt|s<k>|-> <events>     (see harness/c21.go)
+       ntcp = node-to-client with a block pipeline: roll-forwards are applied by the pipeline's
+       ApplyFunc, roll-backwards wait for the pipeline to drain (GV.Model.SyncLoop.pstep)
   out: cb=<tokens> maxout=<ok|EXCEEDED:v> stop=<-|st/dones/err> req=<n>
 
   Everything except `req` is a function of the op. `req` (RequestNext messages on
@@ -37,35 +39,36 @@ def handle (line : String) : Out :=
     | [] => ("", none)
   match tokens op with
   | ["sync", mode, limit, lazy, slow, stop, events] =>
-    if (mode ≠ "ntc" ∧ mode ≠ "ntn") ∨ (lazy ≠ "0" ∧ lazy ≠ "1") ∨ (slow ≠ "0" ∧ slow ≠ "1") then badOp else
-    match parseNat? limit, (if stop = "-" then some 0 else parseNat? stop) with
-    | some cfg, some stopAt =>
-      if cfg > 100 ∨ (stop ≠ "-" ∧ stopAt = 0) then badOp else
+    if (mode ≠ "ntc" ∧ mode ≠ "ntn" ∧ mode ≠ "ntcp") ∨ (lazy ≠ "0" ∧ lazy ≠ "1") ∨ (slow ≠ "0" ∧ slow ≠ "1") then badOp else
+    -- stop field: "-" | "<k>" (k-th callback asks to stop, then Stop) | "s<k>" (Stop while the k-th,
+    -- last, callback is still running)
+    let slowStop := stop.startsWith "s"
+    let stopNum := if slowStop then String.ofList (stop.toList.drop 1) else stop
+    match parseNat? limit, (if stop = "-" then some 0 else parseNat? stopNum) with
+    | some cfg, some stopArg =>
+      if cfg > 100 ∨ (stop ≠ "-" ∧ stopArg = 0) then badOp else
+      let stopAt := if slowStop then 0 else stopArg
       let ev := if events = "-" then [] else events.toList
       if !(ev.all (fun c => c == 'F' || c == 'B' || c == 'A')) then badOp else
       let ntn := mode = "ntn"
       let rs := replyEvents ev
       let n := rs.length
+      if (slowStop ∧ stopArg ≠ n) ∨ (mode = "ntcp" ∧ stop ≠ "-") then badOp else
       let eff := effLimit cfg
       let triggered := stopAt > 0 && stopAt ≤ n
       -- requests the client ever issues
-      let total := if triggered then (loopState eff (stopAt - 1)).1 else (loopState eff n).1
+      -- (slow stop: the last callback is still running, its signal never reaches the sync loop)
+      let total := if triggered then (loopState eff (stopAt - 1)).1
+                   else if slowStop then (loopState eff (n - 1)).1 else (loopState eff n).1
       -- replies the server gets to send = callbacks
       let m := if triggered then min n total else n
       let cb := let l := tokensOf ntn rs m; if l.isEmpty then "-" else ",".intercalate l
       let allAnswered := triggered && n ≥ total
-      -- recorded finding `stop-sendqueue-full`: with an effective limit above the send-queue
-      -- capacity and requests still unanswered, Stop's Done may find the queue full and block
-      -- (whether it does depends on how much the engine has flushed): the model admits both
-      let inClass := stopAt > 0 && !allAnswered && eff > sendQueueCap
-      let implStop := impl.bind (fun i => (tokens i).findSome? (fun t =>
-        match t.splitOn "=" with | ["stop", v] => some v | _ => none))
       let stopStr :=
-        if stopAt = 0 then "-"
-        else if allAnswered then "ok/1/noerr"
-        else if inClass && implStop == some "HANG/0/noerr" then "HANG/0/noerr"
-        else "ok/0/noerr"
-      let lo := if allAnswered then total else min (m + 1) total
+        if slowStop then (if total ≤ n then "ok/1/noerr" else "ok/0/noerr")
+        else if stopAt = 0 then "-"
+        else if allAnswered then "ok/1/noerr" else "ok/0/noerr"
+      let lo := if allAnswered then total else if slowStop then min m total else min (m + 1) total
       let hi := if allAnswered then total else min total (m + GV.Gen.Limits.maxMessagesPerSegment)
       let reqStr := match impl.bind findReq with
         | some r => if lo ≤ r ∧ r ≤ hi then toString r else s!"[{lo}..{hi}]"
@@ -74,10 +77,11 @@ def handle (line : String) : Out :=
       -- the property: callbacks once per server message, in order, with its tip; never more
       -- outstanding than the limit; a requested stop ends cleanly (one Done, no error)
       let spec :=
-        if stopAt = 0 then s!"cb={cb} maxout=ok stop=- *"
+        if slowStop then (if total ≤ n then s!"cb={cb} maxout=ok stop=ok/1/noerr *" else s!"cb={cb} maxout=ok stop=ok/*")
+        else if stopAt = 0 then s!"cb={cb} maxout=ok stop=- *"
         else if allAnswered then s!"cb={cb} maxout=ok stop=ok/1/noerr *"
         else s!"cb={cb} maxout=ok stop=ok/*"
-      { model, spec, cls := if inClass then "stop-sendqueue-full" else "" }
+      { model, spec }
     | _, _ => badOp
   | _ => badOp
 
